@@ -315,3 +315,78 @@ def r7d(ctx: Ctx) -> list[Ob]:
     # operands) is deliberately NOT armed: C08 as stated does not require it, so arming it would
     # demand more than the property says.
     return [is_smooth_shape(ctx), is_decomposable_shape(ctx), unique_factorization(ctx)] + compat_unique(ctx)
+
+
+# ------------------------------------------------------------------------------------------ R7s
+def r7s(ctx: Ctx) -> list[Ob]:
+    """R7s -- the scope a circuit records for a layer is the union over *all* of its inputs.
+
+    Every structural predicate (smooth, decomposable, structured-decomposable, compatible) is decided
+    from ``Circuit.layer_scope``.  For the circuits the predicates exist to reject -- non-smooth sums --
+    a scope taken from one input (``self._scopes[sl_ins[0]]``), or from a filtered / sliced input list,
+    hides the variables that enter through the other inputs, and the answer then depends on the order
+    in which the sum lists its inputs.  Each store into the scope table inside the constructor's
+    validation loop must therefore be the input layer's own scope, or a union (``Scope.union(*..)``,
+    ``|``, ``reduce``) over an unfiltered iteration of the whole input list; the circuit's own scope is
+    the union over all outputs."""
+    from ..canon import FlowCanon
+    from ..cfg import build_cfg
+
+    fq = "cirkit.symbolic.circuit.Circuit.__init__"
+    f = ctx.repo.func(fq)
+    g = ctx.memo("cfg:" + fq, lambda: build_cfg(f.node))
+    fc = ctx.memo("flowcanon:" + fq, lambda: FlowCanon(g))
+    out: list[Ob] = []
+    # the attribute read back by layer_scope
+    ls = ctx.repo.func("cirkit.symbolic.circuit.Circuit.layer_scope")
+    table = None
+    for n in ast.walk(ls.node):
+        if isinstance(n, ast.Return) and isinstance(n.value, ast.Subscript):
+            table = unparse(n.value.value)
+    if table is None:
+        return [unres("R7s", ls.qualname, "scope-table", "layer_scope does not return an entry of a table: no verdict", ls.loc)]
+    k = 0
+    for n, st in g.stmts.items():
+        if not isinstance(st, ast.Assign):
+            continue
+        for t in st.targets:
+            if not (isinstance(t, ast.Subscript) and unparse(t.value) == table):
+                continue
+            k += 1
+            val = fc.expr(st.value, n)  # locals inlined: a hoisted list of input scopes is seen through
+            site = f"{f.module.relpath}:{st.lineno}"
+            key_c = fc.text(t.slice, n)
+            inst = f"scope-store#{k}"
+            txt = unparse(val)
+            # (a) an input layer's own scope
+            if isinstance(val, ast.Attribute) and val.attr == "scope" and unparse(val.value) == key_c:
+                out.append(ok("R7s", fq, inst, "an input layer records its own scope", site))
+                continue
+            # (b) union over the whole input list
+            comps = [x for x in ast.walk(val) if isinstance(x, (ast.GeneratorExp, ast.ListComp, ast.SetComp))]
+            whole = False
+            filtered = False
+            for c in comps:
+                if len(c.generators) != 1:
+                    continue
+                gen = c.generators[0]
+                it_c = unparse(gen.iter)
+                if gen.ifs:
+                    filtered = True
+                if "layer_inputs(" in it_c or "_in_nodes[" in it_c or "nodes_inputs" in it_c or "in_layers" in it_c:
+                    if isinstance(gen.iter, ast.Subscript) or "[" in unparse(gen.iter).replace(table, ""):
+                        filtered = True
+                    if table in unparse(c.elt):
+                        whole = True
+            is_union = "union" in txt or isinstance(val, ast.BinOp) and isinstance(val.op, ast.BitOr) or "reduce" in txt
+            if whole and is_union and not filtered:
+                out.append(ok("R7s", fq, inst, "union of the recorded scopes of all inputs", site))
+            elif table in txt and not comps:
+                out.append(viol("R7s", fq, inst, f"the scope recorded for a layer is `{txt[:70]}` -- the scope of selected input(s), not the union over all of them: variables that enter a (non-smooth) sum through another input are invisible to is_decomposable / is_structured_decomposable / compatibility, and the answer depends on the order of the inputs", site))
+            elif filtered:
+                out.append(viol("R7s", fq, inst, f"the scope recorded for a layer is a union over a filtered or sliced input list (`{txt[:70]}`)", site))
+            else:
+                out.append(unres("R7s", fq, inst, f"a scope store in a form the rule has no model of: `{txt[:60]}`", site))
+    if k == 0:
+        out.append(unres("R7s", fq, "scope-store", f"no store into {table} found in the constructor", f.loc))
+    return out
